@@ -232,3 +232,31 @@ func DecodeLib(b []byte) (LibView, bool) {
 	}
 	return v, true
 }
+
+// Definitely: the value is a JSON object with exactly one string "id" member and exactly one string
+// "token" member, equal to id and token (no duplicate keys that different decoders resolve differently).
+func Definitely(b []byte, id, token string) bool {
+	p := ParsePayload(b)
+	return p != nil && len(p.IDs) == 1 && len(p.Tokens) == 1 && p.IDs[0] == id && p.Tokens[0] == token && !hasDuplicateIDOrTokenKey(b)
+}
+
+func hasDuplicateIDOrTokenKey(b []byte) bool {
+	dec := json.NewDecoder(bytes.NewReader(b))
+	if tk, err := dec.Token(); err != nil || tk != json.Delim('{') {
+		return false
+	}
+	n := map[string]int{}
+	for dec.More() {
+		kt, err := dec.Token()
+		if err != nil {
+			return false
+		}
+		k, _ := kt.(string)
+		var raw json.RawMessage
+		if dec.Decode(&raw) != nil {
+			return false
+		}
+		n[strings.ToLower(k)]++
+	}
+	return n["id"] > 1 || n["token"] > 1
+}
